@@ -1,7 +1,3 @@
 #!/bin/bash
-# developer build that ignores in-progress llir_*.go files (used while the IR front end is under construction)
-set -e
-export PATH=/opt/veriftools/go1.26.8/bin:$PATH GOPROXY=off GOSUMDB=off GOTOOLCHAIN=local GOFLAGS=-mod=mod
-rm -rf /tmp/engbuild && mkdir -p /tmp/engbuild && cd /verif/engine
-for f in *.go go.mod go.sum; do case $f in llir_*) ;; *) cp $f /tmp/engbuild/;; esac; done
-cd /tmp/engbuild && go build -o /verif/bin/bngsym . && touch /verif/bin/bngsym
+# developer build = the registered build
+exec /verif/setup.sh
